@@ -160,7 +160,7 @@ Proof.
   intros Hk H.
   assert (E : read t b = match scalar_size t with
                          | Some k => if len b <? N.of_nat k then Err else Ok (VU (unbe (firstn k b)), skipn k b)
-                         | None => Err end) by (destruct t; try discriminate; reflexivity).
+                         | None => Err end) by (destruct t; try discriminate; cbn [scalar_size]; rewrite <- short_len; reflexivity).
   rewrite E, Hk in H. clear E. destruct (N.ltb_spec (len b) (N.of_nat k)) as [|Hl]; [discriminate|].
   injection H as <- <-. exists (unbe (firstn k b)). split; [reflexivity|]. split.
   - apply fits_of_256. pose proof (unbe_lt (firstn k b)) as Hu. rewrite firstn_length in Hu.
